@@ -252,7 +252,8 @@ def _check_repetitions(ctx) -> None:
                     cur = parents[id(cur)]
                     if isinstance(cur, (ast.For, ast.While)) and not any(isinstance(d, ast.Assign) and dotted_of(d.targets[0]) == name for d in ast.walk(cur)):
                         in_loop_after = True
-            if len(uses) > 1 or in_loop_after:
+            n_defs = len(vs)
+            if len(uses) > n_defs or in_loop_after:
                 ctx.fail("REP", f, f.node, f"the translated node `{name}` is appended more than once: repetitions share one node object", construct=f"translated node {name} reused")
     # counts per arm
     got: Dict[str, List[str]] = {}
@@ -262,6 +263,14 @@ def _check_repetitions(ctx) -> None:
         st = S.stmt_of(n, parents)
         if isinstance(st, ast.Return):
             continue  # the {1,1} / no-quantifier shortcuts
+        if isinstance(st, ast.Assign) and len(st.targets) == 1 and isinstance(st.targets[0], ast.Name):
+            # `x = self.transform(node.value); return x` is the same shortcut
+            blk = parents.get(id(st))
+            sibs = next((b for fld in ("body", "orelse", "finalbody") for b in [getattr(blk, fld, None)] if isinstance(b, list) and any(x is st for x in b)), None)
+            if sibs is not None:
+                i = next(k for k, x in enumerate(sibs) if x is st)
+                if i + 1 < len(sibs) and isinstance(sibs[i + 1], ast.Return) and isinstance(sibs[i + 1].value, ast.Name) and sibs[i + 1].value.id == st.targets[0].id:
+                    continue
         arm = arm_of(n)
         loop = None
         cur: ast.AST = n
